@@ -173,7 +173,7 @@ apply_fields(const struct tp_schema *s, struct lyd_node **data, const struct lyd
         return;
     }
     /* lyd_diff_apply_all(&data, …) must leave `data` at the first sibling; the comparison below starts from the real first
-     * sibling, the distance is reported in the implementation-only field P:<n> (finding F164) */
+     * sibling, the distance is reported in the implementation-only field P:<n> (finding F174) */
     stale = nprev(*data);
     *data = lyd_first_sibling(*data);
     if (has_dup_inst(*data)) {
